@@ -9,6 +9,7 @@ import (
 	"fmt"
 	"os"
 	"path/filepath"
+	"runtime"
 	"runtime/pprof"
 	"sort"
 	"strconv"
@@ -100,6 +101,8 @@ type VioRef struct {
 	V      eng.Violation `json:"violation"`
 }
 
+var heapDump = func() {}
+
 func main() {
 	if len(os.Args) < 2 {
 		fmt.Fprintln(os.Stderr, "usage: sim batch|replay|one ...")
@@ -110,6 +113,17 @@ func main() {
 		f, _ := os.Create(pf)
 		pprof.StartCPUProfile(f)
 		defer pprof.StopCPUProfile()
+	}
+	if pf := os.Getenv("SIM_HEAPPROFILE"); pf != "" {
+		heapDump = func() {
+			f, _ := os.Create(pf)
+			runtime.GC()
+			pprof.Lookup("heap").WriteTo(f, 0)
+			f.Close()
+			g, _ := os.Create(pf + ".goroutines")
+			pprof.Lookup("goroutine").WriteTo(g, 1)
+			g.Close()
+		}
 	}
 	switch os.Args[1] {
 	case "batch":
@@ -301,6 +315,7 @@ func batch(args []string) {
 		fmt.Println()
 	}
 	static.Cleanup()
+	heapDump()
 	os.Exit(0) // do not wait for goroutines a hanging run may have left behind
 }
 
